@@ -34,14 +34,50 @@ func constIntOf(info *types.Info, e ast.Expr) (int64, bool) {
 }
 
 // writeByteArgs lists, in order, the arguments of <buf>.WriteByte(...) calls in the statements.
+// c25Decls: the functions of the slip package, so that WriteByte calls made through a helper
+// (`writeEscaped(buf, ESC_END)`) are seen with the helper's parameters replaced by the arguments.
+var c25Decls map[*types.Func]*ast.FuncDecl
+
 func writeByteArgs(info *types.Info, stmts []ast.Stmt) []ast.Expr {
+	return writeByteArgsDepth(info, stmts, nil, 0)
+}
+
+func writeByteArgsDepth(info *types.Info, stmts []ast.Stmt, subst map[types.Object]ast.Expr, depth int) []ast.Expr {
 	var out []ast.Expr
 	for _, s := range stmts {
 		ast.Inspect(s, func(n ast.Node) bool {
-			if call, ok := n.(*ast.CallExpr); ok {
-				if f := CalleeOf(info, call); f != nil && f.Name() == "WriteByte" && len(call.Args) == 1 {
-					out = append(out, call.Args[0])
+			call, ok := n.(*ast.CallExpr)
+			if !ok {
+				return true
+			}
+			f := CalleeOf(info, call)
+			if f == nil {
+				return true
+			}
+			if f.Name() == "WriteByte" && len(call.Args) == 1 {
+				a := call.Args[0]
+				if o := identObj(info, a); o != nil && subst[o] != nil {
+					a = subst[o]
 				}
+				out = append(out, a)
+				return true
+			}
+			if fd := c25Decls[f]; fd != nil && fd.Body != nil && depth < 2 {
+				sub := map[types.Object]ast.Expr{}
+				i := 0
+				for _, fl := range fd.Type.Params.List {
+					for _, nm := range fl.Names {
+						if i < len(call.Args) {
+							a := call.Args[i]
+							if o := identObj(info, a); o != nil && subst[o] != nil {
+								a = subst[o]
+							}
+							sub[info.ObjectOf(nm)] = a
+						}
+						i++
+					}
+				}
+				out = append(out, writeByteArgsDepth(info, fd.Body.List, sub, depth+1)...)
 			}
 			return true
 		})
@@ -62,6 +98,16 @@ func runC25(c *Ctx) {
 		return
 	}
 	info := pk.TypesInfo
+	c25Decls = map[*types.Func]*ast.FuncDecl{}
+	for _, f := range pk.Syntax {
+		for _, d := range f.Decls {
+			if fd, ok := d.(*ast.FuncDecl); ok && fd.Body != nil {
+				if fn, ok := info.Defs[fd.Name].(*types.Func); ok {
+					c25Decls[fn] = fd
+				}
+			}
+		}
+	}
 	c25Extra(c, p, pk)
 	const rC, rT, rD, rB, rR, rM = "rfc1055-constants", "escape-tables-inverse", "packet-delimiters", "one-byte-reads", "read-result-tested", "mux-frame-symmetry"
 	vals := map[string]int64{}
@@ -204,7 +250,46 @@ func runC25(c *Ctx) {
 			}
 		}
 		c.Check(nReads >= 2 && nTested == nReads, rR, "ReadPacket: every Read is checked", p.Pos(fd.Pos()), fmt.Sprintf("%d reads, all followed by `n == 0 || err != nil` -> return", nReads), fmt.Sprintf("%d of %d Read calls are followed by a test of n and err that returns: a short or failed read is treated as data", nTested, nReads))
-		// decode tables
+		// decode tables: a switch on the byte, or the same as an if / else-if chain
+		record := func(code string, body []ast.Stmt) {
+			for _, s := range body {
+				if as, ok := s.(*ast.AssignStmt); ok && len(as.Lhs) == 1 && types.ExprString(as.Lhs[0]) == bufVar+"[0]" {
+					if v, ok := constIntOf(info, as.Rhs[0]); ok {
+						for nme, x := range vals {
+							if x == v {
+								rmap[code] = nme
+							}
+						}
+					}
+				}
+			}
+		}
+		ast.Inspect(fd.Body, func(n ast.Node) bool {
+			ifs, ok := n.(*ast.IfStmt)
+			for ok && ifs != nil {
+				if be, isBin := ast.Unparen(ifs.Cond).(*ast.BinaryExpr); isBin && be.Op == token.EQL {
+					x, y := be.X, be.Y
+					if types.ExprString(y) == bufVar+"[0]" {
+						x, y = y, x
+					}
+					if types.ExprString(x) == bufVar+"[0]" {
+						if v, isK := constIntOf(info, y); isK {
+							for nme, xv := range vals {
+								if xv == v {
+									record(nme, ifs.Body.List)
+								}
+							}
+						}
+					}
+				}
+				next, isIf := ifs.Else.(*ast.IfStmt)
+				if !isIf {
+					break
+				}
+				ifs = next
+			}
+			return true
+		})
 		ast.Inspect(fd.Body, func(n ast.Node) bool {
 			sw, ok := n.(*ast.SwitchStmt)
 			if !ok || sw.Tag == nil || types.ExprString(sw.Tag) != bufVar+"[0]" {
